@@ -41,11 +41,23 @@ func recSeq(o, k int) string {
 	if (o+k)%5 == 0 {
 		l += 58 // 59..81: crosses the folding boundary
 	}
+	if (o+2*k)%7 == 3 {
+		l = 60 * (1 + (o+k)%3) // exactly one, two or three full lines
+	}
 	b := make([]byte, l)
 	for i := range b {
 		b[i] = "acgt"[(i+o+2*k)%4]
 	}
 	return string(b)
+}
+
+// seqOfID: the sequence pushed under an identifier made by recID (false for any other identifier)
+func seqOfID(id string) (string, bool) {
+	var o, k int
+	if n, err := fmt.Sscanf(id, "r%d_%d", &o, &k); err != nil || n != 2 || recID(o, k) != id || bigBatches[o] {
+		return "", false
+	}
+	return recSeq(o, k), true
 }
 
 // bigBatches (C18 only, sequential runs): batches whose single record is larger than the 4 KiB bufio buffer
@@ -144,11 +156,44 @@ func tokenize(format string, data []byte) []string {
 	toks := []string{}
 	switch format {
 	case "fasta":
-		for _, line := range strings.Split(string(data), "\n") {
-			if strings.HasPrefix(line, ">") {
-				toks = append(toks, strings.Fields(line[1:] + " ")[0])
+		// strict reading: a title line, then at least one non-empty line of nucleotides, nothing else (no blank
+		// line); the lines of a record put together are the sequence that was pushed under that identifier
+		lines := strings.Split(string(data), "\n")
+		if len(lines) > 0 && lines[len(lines)-1] == "" {
+			lines = lines[:len(lines)-1]
+		} else if len(data) > 0 {
+			toks = append(toks, "junk:no-final-newline")
+		}
+		cur, seq, nl := "", "", 0
+		closeRec := func() {
+			if cur == "" {
+				return
+			}
+			if nl == 0 {
+				toks = append(toks, "junk:no-sequence-line-for-"+cur)
+			} else if want, ok := seqOfID(cur); ok && want != seq {
+				toks = append(toks, "junk:sequence-of-"+cur)
 			}
 		}
+		for _, line := range lines {
+			switch {
+			case strings.HasPrefix(line, ">"):
+				closeRec()
+				cur, seq, nl = strings.Fields(line[1:] + " ")[0], "", 0
+				toks = append(toks, cur)
+			case line == "":
+				toks = append(toks, "junk:blank-line")
+			case cur == "":
+				toks = append(toks, "junk:sequence-before-title")
+			default:
+				if strings.Trim(line, "acgtnACGTN") != "" {
+					toks = append(toks, "junk:not-nucleotides")
+				}
+				seq += line
+				nl++
+			}
+		}
+		closeRec()
 	case "fastq":
 		lines := strings.Split(string(data), "\n")
 		if len(lines) > 0 && lines[len(lines)-1] == "" {
@@ -159,7 +204,13 @@ func tokenize(format string, data []byte) []string {
 				toks = append(toks, "junk:fastq-structure")
 				break
 			}
-			toks = append(toks, strings.Fields(lines[i][1:] + " ")[0])
+			id := strings.Fields(lines[i][1:] + " ")[0]
+			toks = append(toks, id)
+			if len(lines[i+1]) != len(lines[i+3]) {
+				toks = append(toks, "junk:quality-length-of-"+id)
+			} else if want, ok := seqOfID(id); ok && want != lines[i+1] {
+				toks = append(toks, "junk:sequence-of-"+id)
+			}
 		}
 	case "csv":
 		for _, line := range strings.Split(string(data), "\n") {
